@@ -20,9 +20,16 @@ def findName {α : Type} (n : String) (xs : List (String × α)) : Option (Strin
     * every name is defined at most once in the whole document;
     * the definition of a name is the first candidate with that name in (page, tree) order — and every
       non-empty candidate name is defined;
-    * it is listed on the page where that element lies. -/
+    * it is listed on the page where that element lies;
+    * every page's list is in strictly increasing name order (deterministic output). -/
+def sortedNames {α : Type} : List (String × α) → Bool
+  | [] => true
+  | [_] => true
+  | x :: y :: r => decide (x.1 < y.1) && sortedNames (y :: r)
+
 def anchorsJudge (cands out : List (List (String × Nat))) : Bool :=
   out.length == cands.length
+  && out.all sortedNames
   && ((out.flatten.map (·.1)).eraseDups.length == (out.flatten.map (·.1)).length)
   && ((cands.flatten ++ out.flatten).map (·.1)).all (fun n =>
         findName n out.flatten == (if n == "" then none else findName n cands.flatten))
